@@ -344,6 +344,20 @@ def install_patches():
 
     DBSession.__aexit__ = aexit
 
+    # --- the schema is written on an autocommit connection, outside DBSession's transactions: a point at
+    # which the process can be killed like after any commit (the stored state is not projected: no graph yet)
+    orig_apply_schema = DBSession.apply_schema
+
+    async def apply_schema(self, *a, **k):
+        res = await orig_apply_schema(self, *a, **k)
+        ses = CUR
+        if ses is not None and res:
+            for hook in list(ses.commit_hooks):
+                hook(ses, {"fn": "apply_schema", "same": False}, self)
+        return res
+
+    DBSession.apply_schema = apply_schema
+
     # --- RPC handler wrappers
     def wrap_rpc(name):
         orig = getattr(DirectorHandler, name)
